@@ -653,6 +653,14 @@ class Extractor:
         args = [self.expr(a, p, bound) for a in e.args]
         if isinstance(fn, ast.Name):
             n = fn.id
+            if n == 'map' and len(e.args) == 2 and not e.keywords and isinstance(e.args[0], (ast.Attribute, ast.Name)):
+                # map(f, xs) is [f(x) for x in xs] (consumed once, in order, by every caller in this package)
+                lc = ast.ListComp(elt=ast.Call(func=e.args[0], args=[ast.Name(id='__m', ctx=ast.Load())], keywords=[]),
+                                  generators=[ast.comprehension(target=ast.Name(id='__m', ctx=ast.Store()), iter=e.args[1],
+                                                                ifs=[], is_async=0)])
+                ast.copy_location(lc, e)
+                ast.fix_missing_locations(lc)
+                return self.comp(lc, p, bound)
             if n == 'bool' and len(args) == 1:
                 return self.truth(args[0])
             if not args and not e.keywords and n in ('list', 'tuple'):
